@@ -88,6 +88,13 @@ func propC07(c *Ctx, r *Report) {
 	r.Trusted = []string{"math/big", "mainnet activation constants", "go/ssa"}
 	e := newEraCtx(c, r)
 	cat := buildSQLCat(c)
+	// the window the averages are computed from belongs to the sync goroutine (shared engine with C18-R2)
+	ruleAveragesCachePrivate(c, newSharedAnalysis(c), r, "C07-R7/averages-cache-private")
+	// a valid held conversion is executed: the re-validation uses the executing height (shared with C05-R5)
+	ruleRevalidation(c, r, "C07-R8/revalidation-height")
+	// every height of the holding window is visited and every batch of it considered (shared with C06-R10)
+	r.rule("C07-R9/window-complete", 2, "the holding window is walked to its end")
+	ruleLoopCompletes(c, r, "C07-R9/window-complete", c.fn("node.Pegnetd.ApplyTransactionBatchesInHolding"), "node.Pegnetd.applyTransactionBatch", "every held batch of the window is considered at the first rated block")
 
 	// R1
 	r.rule("C07-R1/hold-conversions", 2, "conversion batches are held, never executed on arrival")
@@ -480,10 +487,24 @@ func ruleHoldingWindow(c *Ctx, r *Report, rule string) {
 						}
 					}
 				}
-				cond, _, _ := condEdge(ph.Block())
+				// the bound test `i < executing height`, however it is written (loop condition, or an
+				// `if i >= h { break }` at the top of the body): its passing edge dominates the scan, its
+				// failing edge leaves the loop, and nothing with an effect runs between the header and the test
 				bound := false
-				if bo, ok := cond.(*ssa.BinOp); ok && bo.Op.String() == "<" && bo.X == ph && c.isExecHeight(bo.Y) {
-					bound = true
+				if l := innermostLoopWithHeader(hold, ph.Block()); l != nil {
+					for b := range l.blocks {
+						x, y, lt, ge := ordEdges(b)
+						if x == nil || unwrapConv(x) != ssa.Value(ph) || !c.isExecHeight(y) {
+							continue
+						}
+						if !blockOrDom(lt, ci.Block()) || l.blocks[ge] {
+							continue
+						}
+						if b != ph.Block() && !(len(b.Preds) == 1 && b.Preds[0] == ph.Block() && len(callsInBlock(ph.Block())) == 0) {
+							continue
+						}
+						bound = true
+					}
 				}
 				okk = init && step && bound
 			}
@@ -657,4 +678,24 @@ func ruleRatesReadOnly(c *Ctx, r *Report, rule string) {
 		})
 	}
 	r.check(len(bad) == 0, rule, "rate maps read for the block", "-", fmt.Sprintf("%d writes to maps of that type on the sync path, none to a map read from pn_rate", n), strings.Join(bad, "; ")+": the same map is handed to the steps that follow (SyncBlock passes it to the holding executor), so they see rates that were never recorded for this block, or miss one that was")
+}
+
+// innermostLoopWithHeader: the natural loop of f whose header is h.
+func innermostLoopWithHeader(f *ssa.Function, h *ssa.BasicBlock) *natLoop {
+	for _, l := range naturalLoops(f) {
+		if l.header == h {
+			return l
+		}
+	}
+	return nil
+}
+
+func callsInBlock(b *ssa.BasicBlock) []ssa.CallInstruction {
+	var out []ssa.CallInstruction
+	for _, ins := range b.Instrs {
+		if ci, ok := ins.(ssa.CallInstruction); ok {
+			out = append(out, ci)
+		}
+	}
+	return out
 }
